@@ -498,6 +498,10 @@ func (dr *dirRepo) blobDelete(d digest.Digest, locked bool) error {
 	}
 	dr.log.Debug("blob deleted", "repo", dr.name, "digest", d.String())
 	err = os.Remove(filename)
+	if err != nil && os.IsNotExist(err) {
+		// removed by another request since the stat
+		return fmt.Errorf("failed to remove %s: %w", d.String(), types.ErrNotFound)
+	}
 	if err == nil {
 		// an index entry may have lost its blob, let the next GC pass visit the repo
 		if !locked {
